@@ -2,6 +2,7 @@ import RexModel.Async.Machine
 import RexModel.Async.Pipeline
 import RexModel.Async.FullPipe
 import RexModel.Async.Guard
+import RexModel.Props.FieldTime
 import Mathlib.Algebra.Order.Field.Basic
 import Mathlib.Tactic.Linarith
 import Mathlib.Order.Monotone.Basic
@@ -276,6 +277,29 @@ theorem C03_count_final_once_future_seen {T : Type} [TimeLike T] (cc : ConnCfg T
     (h : ∃ v ∈ pre, isFuture tsStep v = true) :
     nbCount cc tsStep (pre ++ rest) = nbCount cc tsStep pre :=
   nbCount_needed_prefix cc tsStep pre rest h
+
+/-- **FIFO under every schedule** (machine level): in every reachable state the receive times recorded on a connection are
+non-decreasing in consumption order — for any monotone, idempotent rounding. -/
+theorem C03_recorded_arrivals_fifo {α : Type} [Field α] [LinearOrder α] [IsStrictOrderedRing α] (rnd : α → α) (fdiv : α → α → Int)
+    (hm : Monotone rnd) (hidem : ∀ x, rnd (rnd x) = rnd x) :
+    letI := Rex.FieldTime.fieldTime α rnd fdiv
+    ∀ (cfg : Cfg α) (c : Nat) (cc : ConnCfg α), cfg.conn c = some cc → WFConn cfg c →
+    ∀ (σ : List Rule) (s : MSt α), Rex.Conf.Run (machine cfg).toNet.sys (initState cfg) σ s →
+      ((s.q (.conn c .record)).filterMap recvRec).Pairwise (· ≤ ·) := by
+  letI := Rex.FieldTime.fieldTime α rnd fdiv
+  intro cfg c cc hcc hwf σ s hrun
+  have hi := arrInv_run cfg c cc hcc hwf hrun (arrInv_init cfg c cc)
+  have h1 := recorded_recv (s.q (.conn c .record)) hi.wfR
+  have h2 : (s.q (.conn c .record)).filterMap delayRec
+      = List.zipWith delay_sc (recvChain cc.commDelay 0 zeroT ((s.q (.conn c .record)).filterMap sentRec))
+          ((s.q (.conn c .record)).filterMap sentRec) := hi.recorded_delays
+  rw [h1, h2]
+  have hz := Rex.FieldTime.zip_of_delay rnd fdiv hidem cc.commDelay ((s.q (.conn c .record)).filterMap sentRec) 0 zeroT
+  have hz' : List.zipWith (zip_recv_sc TimeLike.rnd) ((s.q (.conn c .record)).filterMap sentRec)
+      (List.zipWith delay_sc (recvChain cc.commDelay 0 zeroT ((s.q (.conn c .record)).filterMap sentRec)) ((s.q (.conn c .record)).filterMap sentRec))
+      = recvChain cc.commDelay 0 zeroT ((s.q (.conn c .record)).filterMap sentRec) := hz
+  rw [hz']
+  exact Rex.FieldTime.chain_sorted rnd fdiv hm hidem cc.commDelay _ 0 zeroT
 
 /-- **Exactly once, in arrival order, under every schedule** (machine level, last stage of a connection): along every execution
 of the asynchronous machine, the sequence "messages recorded as consumed, followed by messages arrived but not yet consumed" of a
